@@ -29,8 +29,10 @@ def Z(x):
     return to_z3(x, "real")
 
 
-def eqs(label, V, pairs):
-    V.ensure(label, z3.And(*[Z(a) == Z(b) for a, b in pairs]), backend="sympy")
+def eqs(label, V, pairs, hyps=None):
+    """polynomial identities for the sympy back end; hyps (optional) = the only equalities used as ideal generators"""
+    kw = {"hyps": hyps} if hyps is not None else {}
+    V.ensure(label, z3.And(*[Z(a) == Z(b) for a, b in pairs]), backend="sympy", **kw)
 
 
 def det3(m):
@@ -53,6 +55,48 @@ def assume_rotation(V, R):
     V.assume(det3(R) == 1)
 
 
+def rot_contract(I, fv, args, kwargs):
+    """contract of rotation_matrix_from_vectors(v1, v2) for call sites: a proper rotation R with v1/|v1| @ R = v2/|v2|"""
+    st = I.st
+    v1 = NP.asarray(I, args[0]).data
+    v2 = NP.asarray(I, args[1]).data
+    n_ = st.ghost["rot_contract_uses"] = st.ghost.get("rot_contract_uses", 0) + 1
+    R = [[st.fresh_sv(f"R{n_}_{i}{j}", "real") for j in range(3)] for i in range(3)]
+    mm = matT_mul(R)
+    orth = [mm[i][j] == (1 if i == j else 0) for i in range(3) for j in range(i, 3)]
+    for f in orth:
+        st.assume(f)
+    st.assume(det3(R) == 1)
+    n1, n2 = NP.sqrt_sumsq(I, v1), NP.sqrt_sumsq(I, v2)
+    st.assume(z3.And(Z(n1) > 0, Z(n2) > 0))          # precondition: directions are defined
+    maps = [sum(Z(v1[k]) * Z(R[k][j]) for k in range(3)) * Z(n2) == Z(v2[j]) * Z(n1) for j in range(3)]
+    for f in maps:
+        st.assume(f)
+    st.event("contract", "rotation_matrix_from_vectors")
+    st.ghost["R_orth"] = orth
+    st.ghost.setdefault("rot_facts", []).append({"R": R, "orth": orth, "det": det3(R) == 1, "maps": maps, "n1": n1, "n2": n2, "v1": v1, "v2": v2})
+    return NP.mk(R)
+
+
+def guard_recursion(I, qual, contract):
+    """inside the body of `qual`, recursive calls are replaced by its contract (modular verification of recursion)"""
+    depth = {"d": 0}
+    real = I.call_function
+
+    def guarded(fv, args, kwargs):
+        if fv.qual == qual:
+            depth["d"] += 1
+            try:
+                if depth["d"] > 1:
+                    return contract(I, fv, args, kwargs)
+                return real(fv, args, kwargs)
+            finally:
+                depth["d"] -= 1
+        return real(fv, args, kwargs)
+    I.call_function = guarded
+    return lambda: setattr(I, "call_function", real)
+
+
 @P.unit(f"{ROT}:rotation_matrix_from_vectors", name="rotation_matrix_from_vectors[general branch]")
 def _from_vectors(V):
     I, st = V.I, V.st
@@ -60,11 +104,36 @@ def _from_vectors(V):
 
     def rand(I_, a, k):
         st.event("hidden-state", "np.random.rand")
-        raise PathEnd("antiparallel branch (reads np.random): not covered by this unit")
+        V.ensure("pure/no-hidden-state-source-is-read", z3.BoolVal(False))
+        return NP.mk([st.fresh_sv(f"rnd{i}", "real") for i in range(3)])
     st.ghost[("np", "random.rand")] = rand
+    # antiparallel branch: the search loop for a helper direction is abstracted by `true` (any helper vector);
+    # the two recursive calls are used through the contract of this very function
+    I.loop_specs[(f"{ROT}:rotation_matrix_from_vectors", 0)] = LoopSpec(
+        invariant=lambda L: [("true", z3.BoolVal(True))],
+        locals={"_rcp": "real", "RV": lambda I_, n: NP.mk([I_.st.fresh_sv(f"RV{i}", "real") for i in range(3)]),
+                "ort": lambda I_, n: NP.mk([I_.st.fresh_sv(f"ort{i}", "real") for i in range(3)])})
     V.cover()
-    out = V.call(f"{ROT}:rotation_matrix_from_vectors", [v1, v2])
-    general = not any(e[0] == "hidden-state" for e in st.trace)
+    undo = guard_recursion(I, f"{ROT}:rotation_matrix_from_vectors", rot_contract)
+    try:
+        out = V.call(f"{ROT}:rotation_matrix_from_vectors", [v1, v2])
+    finally:
+        undo()
+    facts = st.ghost.get("rot_facts", [])
+    general = not facts
+    if out.returned and len(facts) == 2 and not any(e[0] == "np-division-by-zero" for e in st.trace):
+        # composition of two rotations v1 -> helper -> v2 (helper non-zero: precondition of the contract, see DESIGN)
+        R = out.value.data
+        hy = facts[0]["orth"] + facts[1]["orth"] + [facts[0]["det"], facts[1]["det"]] + facts[0]["maps"] + facts[1]["maps"]
+        n1 = NP.sqrt_sumsq(I, v1.items)
+        n2 = NP.sqrt_sumsq(I, v2.items)
+        mmx = matT_mul(R)
+        eqs("post[antiparallel]/orthogonal", V, [(mmx[i][j], z3.RealVal(1 if i == j else 0)) for i in range(3) for j in range(i, 3)],
+            hyps=facts[0]["orth"] + facts[1]["orth"])
+        V.ensure("post[antiparallel]/is-the-product-of-the-two-contract-rotations",
+                 z3.And(*[Z(R[i][j]) == sum(Z(facts[0]["R"][i][k]) * Z(facts[1]["R"][k][j]) for k in range(3)) for i in range(3) for j in range(3)]))
+        V.ensure("post[antiparallel]/helper-chain:v1->helper->v2",
+                 z3.BoolVal(facts[0]["v1"] is not None and all(a is b for a, b in zip(facts[0]["v2"], facts[1]["v1"]))))
     if not out.returned:
         V.ensure("post/raises-only-for-a-zero-vector", z3.BoolVal(any(e[0] == "np-division-by-zero" for e in st.trace)) if False else z3.BoolVal(False))
         return
@@ -240,3 +309,63 @@ def _ens_rigid(V):
     if out.returned:
         eqs("post/distances-unchanged-in-every-conformer", V,
             [(d2(after[c][i], after[c][j]), d2(before[c][i], before[c][j])) for c in range(2) for i in range(3) for j in range(i + 1, 3)])
+
+
+ENSQ = M.CLS["ConformerEnsemble"]
+
+
+@P.unit(f"{ENSQ}.optimal_rotation_to_ref_coords", name="alignment reports, per conformer, the smallest RMSD and the rotation that achieves it",
+        functions=[f"{ENSQ}.optimal_rotation_to_ref_coords", f"{M.CLS['Molecule']}.align_to_ref_coords"])
+def _align_bookkeeping(V):
+    """the fitting routine `func` is the caller's (uninterpreted: any rotation, any rmsd < 100 per call); decided here: the
+    selection logic -- each conformer gets the minimum over its candidate mappings and the matching rotation"""
+    I, st = V.I, V.st
+    which = V.choose(["ensemble", "molecule"], "receiver")
+    calls = []
+
+    def func(I_, a, k):
+        n = len(calls)
+        R = NP.mk([[st.fresh_sv(f"F{n}_{i}{j}", "real") for j in range(3)] for i in range(3)])
+        r = st.fresh_sv(f"rmsd{n}", "real")
+        st.assume(z3.And(r.z >= 0, r.z < 100))
+        calls.append((a[0], a[1], R, r))
+        return (R, r)
+    ref = Obj(I.builtins["object"], {"coords": NP.mk([[V.sym(f"ref{i}{k}", "real") for k in range(3)] for i in range(2)])}, tag="refgeom")
+    idxs = ListV([ListV([0, 1]), ListV([1, 2])])
+    V.witness(lambda ev: {"op": "alignment-selection", "receiver": which, "rmsds": [ev(c[3]) for c in calls], "signature": "alignment-selection"})
+    V.cover()
+    if which == "ensemble":
+        e = M.mk_ens(V, 2, 3, bonds=((0, 1), (1, 2)))
+        out = V.method(e, "optimal_rotation_to_ref_coords", [Builtin("func", func), idxs, ref], qual=f"{ENSQ}.optimal_rotation_to_ref_coords")
+        V.ensure("post/returns", z3.BoolVal(out.returned))
+        if not out.returned:
+            return
+        rmsds, rots = out.value
+        ok = isinstance(rmsds, ListV) and len(rmsds.items) == 2 and len(calls) == 4 and isinstance(rots, NdArr) and rots.tail == (2, 3, 3)
+        V.ensure("post/one-fit-per-conformer-and-mapping", z3.BoolVal(ok))
+        if ok:
+            for c in range(2):
+                r0, r1 = calls[2 * c][3].z, calls[2 * c + 1][3].z
+                V.ensure(f"post/reported-rmsd-is-the-smallest-of-this-conformer's-fits/{c}", Z(rmsds.items[c]) == z3.If(r1 < r0, r1, r0))
+                for i in range(3):
+                    for j in range(3):
+                        pass
+                V.ensure(f"post/rotation-is-the-one-that-achieved-it/{c}",
+                         z3.And(*[Z(rots.data[c][i][j]) == z3.If(r1 < r0, Z(calls[2 * c + 1][2].data[i][j]), Z(calls[2 * c][2].data[i][j]))
+                                  for i in range(3) for j in range(3)]))
+    else:
+        m = M.mk_mol(V, "Molecule", 3, ((0, 1), (1, 2)))
+        before = [list(r) for r in m.fields["_coords"].data]
+        out = V.method(m, "align_to_ref_coords", [Builtin("func", func), idxs, ref], qual=f"{M.CLS['Molecule']}.align_to_ref_coords")
+        V.ensure("post/returns", z3.BoolVal(out.returned))
+        if not out.returned or len(calls) != 2:
+            V.ensure("post/one-fit-per-mapping", z3.BoolVal(len(calls) == 2))
+            return
+        r0, r1 = calls[0][3].z, calls[1][3].z
+        V.ensure("post/returned-rmsd-is-the-smallest-fit", Z(out.value) == z3.If(r1 < r0, r1, r0))
+        # coordinates: centred on the first mapping's centroid, then multiplied by the rotation of the best fit
+        cen = [sum(Z(before[i][k]) for i in (0, 1)) / 2 for k in range(3)]
+        after = m.fields["_coords"].data
+        best = [[z3.If(r1 < r0, Z(calls[1][2].data[i][j]), Z(calls[0][2].data[i][j])) for j in range(3)] for i in range(3)]
+        V.ensure("post/transformed-by-the-rotation-of-the-best-fit",
+                 z3.And(*[Z(after[a][j]) == sum((Z(before[a][k]) - cen[k]) * best[k][j] for k in range(3)) for a in range(3) for j in range(3)]))
